@@ -45,9 +45,19 @@ struct P {
 }
 
 pub fn run_c08(ctx: &mut Ctx, from: u64, to: u64) {
+    run_hist(ctx, from, to, false)
+}
+
+/// C05 with predictors in the history: after every update_* the complete observable state must be
+/// the one of a fresh parse (or the default sentence after a failed update), whatever ran before.
+pub fn run_c05p(ctx: &mut Ctx, from: u64, to: u64) {
+    run_hist(ctx, from, to, true)
+}
+
+fn run_hist(ctx: &mut Ctx, from: u64, to: u64, update_state_mode: bool) {
     for k in from..to {
         ctx.begin_case(k);
-        let mut rng = Rng::new(case_seed(ctx.seed, "C08h", k));
+        let mut rng = Rng::new(case_seed(ctx.seed, if update_state_mode { "C05p" } else { "C08h" }, k));
         let mut o = GenOpts::default();
         o.max_text_len = 40;
         o.max_window = 16;
@@ -143,6 +153,20 @@ pub fn run_c08(ctx: &mut Ctx, from: u64, to: u64) {
             };
             ops.push(op);
         }
+        // rare: a very long line somewhere in the history (buffers beyond any small internal capacity)
+        if rng.chance(1, 25) {
+            let alpha: Vec<char> = case_a.texts.iter().flatten().copied().collect();
+            let n = rng.urange(4200, 9000);
+            let long = to_string(&vgen::text::text_from(&mut rng, &alpha, n));
+            let at = rng.below(ops.len() + 1);
+            let pi = rng.below(preds.len());
+            ops.insert(at, Op::Predict(pi));
+            ops.insert(at, Op::Update(Fmt::Raw, long));
+            if preds[pi].tags && rng.chance(1, 2) {
+                ops.insert(at + 2, Op::FillTags);
+            }
+            ctx.count("histories_with_line_longer_than_4096_chars", 1);
+        }
         let final_pred = rng.below(preds.len());
         let final_text = rng.pick(&all_texts).to_vec();
         let fp = &preds[final_pred];
@@ -200,6 +224,40 @@ pub fn run_c08(ctx: &mut Ctx, from: u64, to: u64) {
                 }
             });
             ctx.eval(1);
+            if update_state_mode {
+                if let (Ok(_), Op::Update(f, inp)) = (&r, op) {
+                    let got = guard(|| observe(&s, false));
+                    let want = guard(|| match crate::p_sentence::sut_from(*f, inp) {
+                        Ok(fresh) => observe(&fresh, false),
+                        Err(_) => crate::p_sentence::default_obs(),
+                    });
+                    ctx.eval(1);
+                    ctx.count("updates_checked_after_histories_with_predictors", 1);
+                    match (got, want) {
+                        (Ok(a), Ok(b)) => {
+                            if a != b {
+                                let what = if a.scores != b.scores { "scores" } else if a.n_tags != b.n_tags || a.tags != b.tags { "tags" } else { "other" };
+                                ctx.violation(
+                                    &format!("C05:state_after_update_in_history_with_predictors_differs_from_fresh_parse:{what}"),
+                                    J::obj(vec![("history", history_json(i + 1)), ("observed", a.to_json()), ("expected", b.to_json())]),
+                                );
+                                failed = true;
+                            }
+                        }
+                        (Err(p), _) => {
+                            ctx.violation(
+                                &format!("C05:accessor_panicked_after_update_in_history_with_predictors:{}", panic_site(&p)),
+                                J::obj(vec![("history", history_json(i + 1)), ("panic", J::s(&p))]),
+                            );
+                            failed = true;
+                        }
+                        _ => {}
+                    }
+                    if failed {
+                        break;
+                    }
+                }
+            }
             match r {
                 Ok((l, upd_failed)) => {
                     linked = l.unwrap_or(None);
@@ -224,6 +282,11 @@ pub fn run_c08(ctx: &mut Ctx, from: u64, to: u64) {
             }
         }
         if failed {
+            continue;
+        }
+        if update_state_mode {
+            ctx.count("history_ops", ops.len() as u64);
+            ctx.nontrivial(fnv(format!("{:?}", ops).as_bytes()));
             continue;
         }
         let txt = to_string(&final_text);
